@@ -9,7 +9,7 @@ struct Alt { const char *text; int level; };   // text == 0 means "absent"; leve
 
 static const Alt SH_SCHEME[] = { {0, 0}, {"s", 0}, {"S", 1}, {"a+.-1", 2} };
 static const Alt SH_USER[] = { {0, 0}, {"u", 0}, {"", 1}, {"u:p", 1}, {"%41%3a", 1}, {"u:1", 2}, {":", 2} };
-static const Alt SH_HOST[] = { {"h", 0}, {"", 0}, {"[::1]", 0}, {"1.2.3.4", 0}, {"H.x", 1}, {"a%41%2d%3A", 1}, {"[v1.x]", 1}, {"[A:b::1.2.3.4]", 1}, {"[1111:2222:3333:4444:5555:6666:255.255.255.255]", 1}, {"[0:00:000:0000:0:0:0:0]", 2}, {"1.2.3.256", 2}, {"[vF.X:y]", 2} };
+static const Alt SH_HOST[] = { {"h", 0}, {"", 0}, {"[::1]", 0}, {"1.2.3.4", 0}, {"100.99.10.255", 1}, {"H.x", 1}, {"a%41%2d%3A", 1}, {"[v1.x]", 1}, {"[A:b::1.2.3.4]", 1}, {"[1111:2222:3333:4444:5555:6666:255.255.255.255]", 1}, {"[0:00:000:0000:0:0:0:0]", 2}, {"1.2.3.256", 2}, {"[vF.X:y]", 2} };
 static const Alt SH_PORT[] = { {0, 0}, {"80", 0}, {"", 1} };
 static const Alt SH_PATH[] = { {"", 0}, {"/", 0}, {"a", 0}, {"/a", 0}, {"a/b", 0}, {"/a/b", 0}, {"..", 0}, {"./a:b", 0}, {"/a/", 1}, {"a/", 1}, {"//", 1}, {".", 1}, {"../a", 1},
                                {"a/./b/../c", 1}, {"%41/%2e/%2E%2e", 1}, {"/a//b", 2}, {"a:b", 2}, {"/../a", 2}, {"/%7e%7E", 2} };
